@@ -55,7 +55,7 @@ def main():
     seeds = []
     for d in sorted(os.listdir(os.path.join(ROOT, "seeded"))):
         sd = os.path.join(ROOT, "seeded", d)
-        if os.path.isdir(sd) and (not only or any(o in d for o in only.split(","))):
+        if os.path.isdir(sd) and os.path.exists(os.path.join(sd, "meta.json")) and (not only or any(o in d for o in only.split(","))):
             meta = json.load(open(os.path.join(sd, "meta.json")))
             seeds.append((d, sd, props or meta.get("checks", [meta["breaks_property"]])))
     if not scratch:
